@@ -28,7 +28,7 @@ TcpTimeout == 10
 VARIABLES cfg,      \* [ns |-> number of servers, T |-> timeout sequence, idmax |-> size of the id space]
           now,
           hs,       \* handles: seq of [name, job, res]    res = <<"none",0>> | <<"ok",r>> | <<ExceptionName,0>>
-          jobs,     \* seq of [name, hs (originator first), id, k (attempts made), stage, t0]
+          jobs,     \* seq of [name, hs (originator first), id, k (attempts made), stage, t0, tn (name asked over TCP)]
           att,      \* UDP attempts = ports = datagrams: seq of [job, srv, id, k, t, open]
           timers,   \* pending delayed calls in insertion order: [k |-> "udp"|"tcp", ref, at]
           rr,       \* Resolver.index (pickServer round robin)
@@ -79,14 +79,14 @@ CompleteMany(js, rv, B, obs) ==
     /\ last' = [obs EXCEPT !.fired = FiredCat(js, rv)]
 Complete(j, rv, B, obs) == CompleteMany(<<j>>, rv, B, obs) /\ UNCHANGED <<rr, conns, pend>>
 
-(* Resolver.queryTCP for job j *)
-QueryTCP(j, B, obs) ==
+(* Resolver.queryTCP(message.queries) for job j: the question section qn of the truncated *response* is what is asked over TCP *)
+QueryTCP(j, qn, B, obs) ==
     IF up = <<>>
       THEN LET r2 == (rr + 1) % cfg.ns IN
            /\ rr' = r2
            /\ conns' = Append(conns, [srv |-> r2 + 1, st |-> "connecting"])
            /\ pend' = Append(pend, j)
-           /\ jobs' = [jobs EXCEPT ![j].stage = "pend"]
+           /\ jobs' = [jobs EXCEPT ![j].stage = "pend", ![j].tn = qn]
            /\ timers' = B.tm /\ tq' = B.tq
            /\ last' = [obs EXCEPT !.connects = <<r2 + 1>>]
            /\ UNCHANGED hs
@@ -94,15 +94,15 @@ QueryTCP(j, B, obs) ==
            \E i \in Ids \ LiveIds(c, B.tq) :
              /\ tq' = Append(B.tq, [job |-> j, conn |-> c, id |-> i, live |-> TRUE])
              /\ timers' = Append(B.tm, [k |-> "tcp", ref |-> Len(B.tq) + 1, at |-> now + TcpTimeout])
-             /\ jobs' = [jobs EXCEPT ![j].stage = "tcp"]
-             /\ last' = [obs EXCEPT !.tcpsent = << <<c, i, jobs[j].name>> >>]
+             /\ jobs' = [jobs EXCEPT ![j].stage = "tcp", ![j].tn = qn]
+             /\ last' = [obs EXCEPT !.tcpsent = << <<c, i, qn>> >>]
              /\ UNCHANGED <<hs, rr, conns, pend>>
 
 (* Resolver.filterAnswers on a matching answer *)
-FilterAnswers(j, kind, rc, v, B, obs) ==
+FilterAnswers(j, kind, rc, v, qn, B, obs) ==
     CASE kind = "ok"    -> Complete(j, <<"ok", v>>, B, obs)
       [] kind = "err"   -> Complete(j, <<ErrName(rc), 0>>, B, obs)
-      [] kind = "trunc" -> QueryTCP(j, B, obs)
+      [] kind = "trunc" -> QueryTCP(j, qn, B, obs)
 -----------------------------------------------------------------------------
 (* resolver.lookupAddress(name n, timeout = cfg.T) *)
 Lookup(n) ==
@@ -116,14 +116,14 @@ Lookup(n) ==
          ELSE \E i \in Ids :
               LET j == Len(jobs) + 1   a == Len(att) + 1 IN
               /\ hs' = Append(hs, [name |-> n, job |-> j, res |-> None2])
-              /\ jobs' = Append(jobs, [name |-> n, hs |-> <<Len(hs) + 1>>, id |-> i, k |-> 1, stage |-> "udp", t0 |-> now])
+              /\ jobs' = Append(jobs, [name |-> n, hs |-> <<Len(hs) + 1>>, id |-> i, k |-> 1, stage |-> "udp", t0 |-> now, tn |-> n])
               /\ att' = Append(att, [job |-> j, srv |-> 1, id |-> i, k |-> 1, t |-> now, open |-> TRUE])
               /\ timers' = Append(timers, [k |-> "udp", ref |-> a, at |-> now + ToOf(1)])
               /\ last' = [Obs0("lookup") EXCEPT !.sent = << <<a, 1, i, n>> >>]
     /\ UNCHANGED <<cfg, now, rr, conns, up, pend, tq>>
 
-(* a datagram with id i (and, if kind = "ok", an answer record with payload v) arrives at the port of attempt a *)
-Reply(a, i, kind, rc, v) ==
+(* a datagram with id i, question section qn (and, if kind = "ok", an answer record with payload v) arrives at the port of attempt a *)
+Reply(a, i, kind, rc, v, qn) ==
     /\ Quiet /\ a \in DOMAIN att
     /\ IF ~att[a].open \/ kind = "garbage"          \* closed port: the OS drops it; undecodable: ignored
          THEN /\ last' = Obs0("reply")
@@ -132,7 +132,7 @@ Reply(a, i, kind, rc, v) ==
          THEN /\ last' = [Obs0("reply") EXCEPT !.unexpected = 1]
               /\ UNCHANGED <<hs, jobs, att, timers, rr, conns, pend, tq>>
          ELSE /\ att' = [att EXCEPT ![a].open = FALSE]
-              /\ FilterAnswers(att[a].job, kind, rc, v, [tm |-> RemoveTimer("udp", a), tq |-> tq],
+              /\ FilterAnswers(att[a].job, kind, rc, v, qn, [tm |-> RemoveTimer("udp", a), tq |-> tq],
                                [Obs0("reply") EXCEPT !.closed = <<a>>])
     /\ UNCHANGED <<cfg, now, up>>
 
@@ -177,7 +177,7 @@ ConnUp(c) ==
          /\ tq' = tq \o [x \in 1..m |-> [job |-> pend[x], conn |-> tgt, id |-> f[x], live |-> TRUE]]
          /\ timers' = timers \o [x \in 1..m |-> [k |-> "tcp", ref |-> Len(tq) + x, at |-> now + TcpTimeout]]
          /\ jobs' = [j \in DOMAIN jobs |-> IF j \in Range(pend) THEN [jobs[j] EXCEPT !.stage = "tcp"] ELSE jobs[j]]
-         /\ last' = [Obs0("connup") EXCEPT !.tcpsent = [x \in 1..m |-> <<tgt, f[x], jobs[pend[x]].name>>]]
+         /\ last' = [Obs0("connup") EXCEPT !.tcpsent = [x \in 1..m |-> <<tgt, f[x], jobs[pend[x]].tn>>]]
     /\ UNCHANGED <<cfg, now, hs, att, rr>>
 
 (* TCP connection attempt c fails: EVERY pending query fails with the reason *)
@@ -197,14 +197,14 @@ ConnLost(c) ==
     /\ UNCHANGED <<cfg, now, hs, jobs, att, timers, rr, pend, tq>>
 
 (* a message with id i arrives on established connection c *)
-TcpReply(c, i, kind, rc, v) ==
+TcpReply(c, i, kind, rc, v, qn) ==
     /\ Quiet /\ c \in DOMAIN conns /\ conns[c].st = "up"
     /\ LET Q == {q \in DOMAIN tq : tq[q].live /\ tq[q].conn = c /\ tq[q].id = i} IN
        IF Q = {}
          THEN /\ last' = [Obs0("tcpreply") EXCEPT !.unexpected = 1]
               /\ UNCHANGED <<hs, jobs, timers, rr, conns, pend, tq>>
          ELSE LET q == CHOOSE q \in Q : TRUE IN
-              FilterAnswers(tq[q].job, kind, rc, v, [tm |-> RemoveTimer("tcp", q), tq |-> [tq EXCEPT ![q].live = FALSE]], Obs0("tcpreply"))
+              FilterAnswers(tq[q].job, kind, rc, v, qn, [tm |-> RemoveTimer("tcp", q), tq |-> [tq EXCEPT ![q].live = FALSE]], Obs0("tcpreply"))
     /\ UNCHANGED <<cfg, now, att, up>>
 
 (* end of a recorded history: nothing may still be due *)
@@ -216,10 +216,11 @@ ReplyAny == \E a \in DOMAIN att, i \in Ids, kind \in {"ok", "err", "trunc", "gar
               /\ (i # att[a].id \/ ~att[a].open) => kind = "ok"
               /\ kind = "garbage" => i = att[a].id
               /\ ~att[a].open => (a = 1 /\ i = att[a].id)
-              /\ Reply(a, i, kind, IF kind = "err" THEN 3 ELSE 0, 7)
+              /\ Reply(a, i, kind, IF kind = "err" THEN 3 ELSE 0, 7, jobs[att[a].job].name)      \* a sane server echoes the question
 TcpReplyAny == \E c \in DOMAIN conns, i \in Ids, kind \in {"ok", "err", "trunc"} :
               /\ (i \notin LiveIds(c, tq)) => kind = "ok"
-              /\ TcpReply(c, i, kind, IF kind = "err" THEN 2 ELSE 0, 8)
+              /\ LET Q == {q \in DOMAIN tq : tq[q].live /\ tq[q].conn = c /\ tq[q].id = i} IN
+                 TcpReply(c, i, kind, IF kind = "err" THEN 2 ELSE 0, 8, IF Q = {} THEN 1 ELSE jobs[tq[CHOOSE q \in Q : TRUE].job].tn)
 LookupAny == \E n \in MCNames : Lookup(n)
 AdvanceAny == \E d \in {1} \cup {timers[x].at - now : x \in DOMAIN timers} : Advance(d)     \* one tick, or up to some deadline
 ConnUpAny == \E c \in DOMAIN conns : ConnUp(c)
